@@ -1,10 +1,10 @@
 (* C07 - every finite result fits the context it was computed in.  Statements only.
    fits c d: non-negative coefficient, at most Precision digits, adjusted exponent <= Emax, exponent
-   >= Etiny for non-zero values (Spec/SpecZ.v).  Quo, Rem, Reduce, Quantize and the iterative functions:
+   >= Etiny for non-zero values (Spec/SpecZ.v).  The iterative functions (Sqrt, Cbrt, Exp, Ln, Log10, Pow):
    decided by the fits oracle on every result of the implementation and by correspondence. *)
 From Coq Require Import ZArith Bool.
 From Apd Require Import Generated.Consts Model.Base Model.NumDigits Model.Decimal Model.Context Spec.SpecZ
-  Proofs.Core Proofs.SetExponent Proofs.RoundSpec Proofs.OpsProofs Proofs.QuoProofs Proofs.SeRoundProofs Proofs.OpsProjections.
+  Proofs.Core Proofs.SetExponent Proofs.RoundSpec Proofs.OpsProofs Proofs.QuoProofs Proofs.SeRoundProofs Proofs.OpsProjections Proofs.CtxReduce Proofs.DivProofs Proofs.QuantizeMid Proofs.FitProofs.
 Open Scope Z_scope.
 
 Theorem C07_round est : est_in_range est -> forall c (x : dec), ctx_ok c -> finite_nn x -> exact_in_limits c (exact_of_dec x) ->
@@ -43,3 +43,38 @@ Theorem C07_quo est : est_in_range est -> forall c (x y : dec), quo_hyps c x y -
   exists d f, ctx_quo est c x y = Ok (finish c d f) /\ c07_post c d.
 Proof. exact (c07_quo est). Qed.
 Print Assumptions C07_quo.
+
+(* Context.Reduce: the stripped non-zero result still fits (fewer digits, same adjusted exponent, a higher
+   exponent); Infinity passes through; a zero result is 0E+0 (C19) *)
+Theorem C07_reduce est : est_in_range est -> forall c x, ctx_ok c -> finite_nn x -> exact_in_limits c (exact_of_dec x) ->
+  exists d f d' n, ctx_reduce est c x = Ok (finish c d' f, n) /\ op_post c (exact_of_dec x) d f /\
+    (form_of d = Infinite -> d' = d /\ n = 0) /\
+    (form_of d = Finite -> coeff d = 0 -> d' = mkDec Finite (neg d) 0 0 /\ n = 0) /\
+    (form_of d = Finite -> 0 < coeff d ->
+       form_of d' = Finite /\ neg d' = neg d /\ 0 <= n /\ exp d' = exp d + n /\ coeff d = coeff d' * 10 ^ n /\
+       0 < coeff d' /\ coeff d' mod 10 <> 0 /\ fits c d' = true).
+Proof. exact (ctx_reduce_correct est). Qed.
+Print Assumptions C07_reduce.
+
+(* Rem: the remainder rounded once fits; QuoInteger: exponent 0, at most Precision digits *)
+Theorem C07_rem est : est_in_range est -> forall c x y,
+  ctx_ok c -> finite_nn x -> finite_nn y -> coeff y <> 0 -> Z.abs (exp x - exp y) <= MaxExponent ->
+  exact_in_limits c (mkExact (neg x) (al_a x y mod al_b x y) 1 (al_exp x y)) ->
+  exists d f, ctx_rem est c x y = Ok (finish c d f) /\ (form_of d = NaN \/ c07_post c d).
+Proof. exact (c07_rem est). Qed.
+Print Assumptions C07_rem.
+
+Theorem C07_quo_integer est : est_in_range est -> forall c x y,
+  1 <= prec c -> finite_nn x -> finite_nn y -> coeff y <> 0 -> Z.abs (exp x - exp y) <= MaxExponent ->
+  exists d f, ctx_quo_integer est c x y = Ok (finish c d f) /\
+    (form_of d = NaN \/ (form_of d = Finite /\ exp d = 0 /\ 0 <= coeff d /\ ndigits (coeff d) <= prec c)).
+Proof. exact (c07_quo_integer est). Qed.
+Print Assumptions C07_quo_integer.
+
+(* Quantize: the result carries the requested exponent and fits, or is NaN *)
+Theorem C07_quantize est : est_in_range est -> forall c x e, ctx_ok c -> form_of x = Finite -> 0 <= coeff x ->
+  exp x - e < MaxExponent -> e - exp x < MaxExponent -> ndigits (coeff x) < MaxExponent ->
+  in_lim e -> in_lim (e + ndigits (quant_coeff (rounding c) x e) - 1) ->
+  exists d f, ctx_quantize est c x e = Ok (finish c d f) /\ (form_of d = NaN \/ (form_of d = Finite /\ exp d = e /\ fits c d = true)).
+Proof. exact (c07_quantize est). Qed.
+Print Assumptions C07_quantize.
